@@ -308,6 +308,10 @@ func (c *C) attemptConnect(ctx context.Context, lmtp bool, endp config.Endpoint,
 func (c *C) Mail(ctx context.Context, from string, opts smtp.MailOptions) error {
 	defer trace.StartRegion(ctx, "smtpconn/MAIL FROM").End()
 
+	// MAIL starts a new transaction, recipients of the previous one (if the
+	// connection is reused) do not belong to it.
+	c.rcpts = nil
+
 	outOpts := smtp.MailOptions{
 		// Future extensions may add additional fields that should not be
 		// copied blindly. So we copy only fields we know should be handled
@@ -348,8 +352,9 @@ func (c *C) Mail(ctx context.Context, from string, opts smtp.MailOptions) error 
 	return nil
 }
 
-// Rcpts returns the list of recipients that were accepted by the remote server,
-// exactly as they were passed to Rcpt.
+// Rcpts returns the list of recipients that were accepted by the remote server
+// in the current transaction (since the last Mail call), exactly as they were
+// passed to Rcpt.
 func (c *C) Rcpts() []string {
 	return c.rcpts
 }
